@@ -343,6 +343,34 @@ class Engine:
         self.raise_if(st, z3.Not(c), "AssertionError", node.lineno)
         return [(st, None)]
 
+    def refinements(self, test: ast.expr, st: State, positive: bool) -> dict[str, Val]:
+        """Flow-sensitive refinement of a *name* by `isinstance(name, T)` on a union / `name is (not) None` on an
+        Optional: in the branch where the test decides the alternative the name is rebound to its payload."""
+        if isinstance(test, ast.UnaryOp) and isinstance(test.op, ast.Not):
+            return self.refinements(test.operand, st, not positive)
+        out: dict[str, Val] = {}
+        if isinstance(test, ast.Call) and getattr(test.func, "id", None) == "isinstance" and len(test.args) == 2 \
+                and isinstance(test.args[0], ast.Name) and test.args[0].id in st.env:
+            v = st.env[test.args[0].id]
+            t = test.args[1]
+            names = [t.id] if isinstance(t, ast.Name) else [e.id for e in t.elts if isinstance(e, ast.Name)] \
+                if isinstance(t, ast.Tuple) else []
+            if isinstance(v.ty, TUnion):
+                tags = [tg for tg, _ in v.ty.alts]
+                hit = [n for n in names if n in tags]
+                remaining = [tg for tg in tags if tg not in hit] if not positive else hit
+                if len(remaining) == 1 and v.ty.alt_ty(remaining[0]) is not None:
+                    tg = remaining[0]
+                    out[test.args[0].id] = Val(v.ty.alt_ty(tg), v.ty.get(tg, v.t), v.mut)
+        if isinstance(test, ast.Compare) and len(test.ops) == 1 and isinstance(test.left, ast.Name) \
+                and test.left.id in st.env and isinstance(test.comparators[0], ast.Constant) \
+                and test.comparators[0].value is None:
+            v = st.env[test.left.id]
+            is_not = isinstance(test.ops[0], ast.IsNot)
+            if isinstance(v.ty, TOpt) and (is_not == positive) and isinstance(test.ops[0], (ast.Is, ast.IsNot)):
+                out[test.left.id] = Val(v.ty.elem, v.ty.val(v.t), v.mut)
+        return out
+
     def s_If(self, node, st):
         c = self.truthy(self.eval(node.test, st))
         c = z3.simplify(c)
@@ -351,11 +379,13 @@ class Engine:
             s1 = st.copy()
             s1.assume(c)
             if z3.is_true(c) or self.feasible(s1):
+                s1.env.update(self.refinements(node.test, st, True))
                 outs += self.exec_block(node.body, s1)
         if not z3.is_true(c):
             s2 = st.copy()
             s2.assume(z3.Not(c))
             if z3.is_false(c) or self.feasible(s2):
+                s2.env.update(self.refinements(node.test, st, False))
                 outs += self.exec_block(node.orelse, s2)
         return outs
 
@@ -446,8 +476,14 @@ class Engine:
 
         entry = self._ns(st.env)
 
+        def at(i):
+            """The item the loop binds in iteration i (tuples for zip/enumerate/items)."""
+            def un(x):
+                return tuple(un(y) for y in x) if isinstance(x, tuple) else unwrap(x)
+            return un(elem(i))
+
         def inv(s: State, k):
-            return spec.inv(SYM, a, self._ns(s.env, _n=n, _k=k, _entry=entry), k)
+            return spec.inv(SYM, a, self._ns(s.env, _n=n, _k=k, _entry=entry, _at=at), k)
 
         # establishment
         for name, cl in inv(st, z3.IntVal(0)).items():
@@ -687,6 +723,9 @@ class Engine:
 
     def e_Attribute(self, node, st):
         base = self.eval(node.value, st)
+        if isinstance(base.ty, TOpt) and isinstance(base.ty.elem, TRec):
+            self.raise_if(st, base.ty.is_none(base.t), "AttributeError", node.lineno)
+            base = Val(base.ty.elem, base.ty.val(base.t), base.mut)
         if isinstance(base.ty, TRec):
             if node.attr in base.ty.fields:
                 return base.ty.get(base.t, node.attr)
@@ -808,10 +847,15 @@ class Engine:
     def e_IfExp(self, node, st):
         c = self.truthy(self.eval(node.test, st))
         saved = list(st.guards)
+        saved_env = st.env
+        ref_t, ref_f = self.refinements(node.test, st, True), self.refinements(node.test, st, False)
         st.guards.append(c)
+        st.env = {**saved_env, **ref_t}
         a = self.eval(node.body, st)
         st.guards[:] = saved + [z3.Not(c)]
+        st.env = {**saved_env, **ref_f}
         b = self.eval(node.orelse, st)
+        st.env = saved_env
         st.guards[:] = saved
         a, b = self.unify(a, b, st, node)
         return Val(a.ty, z3.If(c, a.t, b.t))
@@ -833,6 +877,10 @@ class Engine:
             return a, Val(a.ty, a.ty.some(b.t))
         if isinstance(b.ty, TOpt) and b.ty.elem.name == a.ty.name:
             return Val(b.ty, b.ty.some(a.t)), b
+        if isinstance(a.ty, TSeq) and isinstance(b.ty, TTuple):
+            return a, self.coerce(b, a.ty, st, node)
+        if isinstance(b.ty, TSeq) and isinstance(a.ty, TTuple):
+            return self.coerce(a, b.ty, st, node), b
         for x, y, swap in ((a, b, False), (b, a, True)):
             if isinstance(x.ty, TUnion):
                 y2 = self.coerce(y, x.ty, st, node)
@@ -866,6 +914,9 @@ class Engine:
             for i, x in enumerate(items):
                 arr = z3.Store(arr, i, x.t)
             return Val(ty, ty.mk(z3.IntVal(len(items)), arr), v.mut)
+        if isinstance(ty, TRec) and isinstance(v.ty, TTuple) and len(v.t) == len(ty.fields):
+            fields = {k: self.coerce(x, fty, st, node).t for (k, fty), x in zip(ty.fields.items(), v.t)}
+            return Val(ty, ty.mk(**fields))
         if isinstance(ty, TUnion):
             for tag, aty in ty.alts:
                 if aty is not None and aty.name == v.ty.name:
@@ -1085,6 +1136,9 @@ class Engine:
             raise Unsupported("async comprehension", node)
         n, elem = self.eval_iter(g.iter, st)
         ic = z3.Int(fresh_name("ci"))
+        from .types import _counter as _cnt
+        import itertools as _it
+        mark = next(_cnt)
         inner = st.copy()
         inner.env = dict(st.env)
         sink: list = []
@@ -1102,6 +1156,24 @@ class Engine:
             e = self.eval(node.elt, inner)
         # quantified-context assumptions made while evaluating the body (e.g. fresh results of callee contracts)
         extra = inner.pc[len(st.pc):]
+        # soundness guard: a symbol created *inside* the body would have to be a function of the bound index; the
+        # encoding has no such skolem functions, so such bodies are outside the subset.
+        terms = list(extra) + [c_ for c_, _, _ in sink]
+        if cond is not None:
+            terms.append(cond)
+        for ee in (e if isinstance(e, tuple) else (e,)):
+            if isinstance(ee.t, list):
+                raise Unsupported("comprehension yielding heterogeneous tuples", node)
+            terms.append(ee.t)
+        for t_ in terms:
+            for nm in _const_names(t_):
+                if "!" in nm:
+                    try:
+                        idx_ = int(nm.rsplit("!", 1)[1])
+                    except ValueError:
+                        continue
+                    if idx_ > mark and nm != str(ic):
+                        raise Unsupported(f"fresh symbol {nm} created inside a comprehension body", node)
         rng = z3.And(0 <= ic, ic < n)
         for cnd, exc, line in sink:
             self.do_raise_q(st, z3.And(rng, cnd), exc, line)
@@ -1264,6 +1336,10 @@ class Engine:
                 raise Unsupported("unbound method call through the class", node)
             return self.apply_contract(c, [self.eval(a, st) for a in node.args], self._kwargs(node, st), st, node)
         recv = self.eval(f.value, st)
+        if isinstance(recv.ty, TUnion) and name in ("index", "count"):
+            seq_alt = next((aty for _, aty in recv.ty.alts if isinstance(aty, TSeq)), None)
+            if seq_alt is not None:  # str has these methods too, with another meaning: only the tuple reading is modelled
+                recv = self.coerce(recv, seq_alt, st, node)
         args = [self.eval(a, st) for a in node.args]
         kw = self._kwargs(node, st)
         L = node.lineno
@@ -1556,6 +1632,28 @@ class Engine:
                 c = a.t <= b.t if is_min else a.t >= b.t
                 return Val(a.ty, z3.If(c, a.t, b.t))
         raise Unsupported("min/max form", node)
+
+
+def _const_names(t) -> set[str]:
+    out: set[str] = set()
+    seen = set()
+    stack = [t]
+    while stack:
+        x = stack.pop()
+        i = x.get_id()
+        if i in seen:
+            continue
+        seen.add(i)
+        if z3.is_quantifier(x):
+            stack.append(x.body())
+            continue
+        if z3.is_app(x):
+            if x.num_args() == 0 and x.decl().kind() == z3.Z3_OP_UNINTERPRETED:
+                out.add(x.decl().name())
+            elif x.decl().kind() == z3.Z3_OP_UNINTERPRETED:
+                out.add(x.decl().name())
+            stack.extend(x.children())
+    return out
 
 
 _QCACHE: dict[int, bool] = {}
